@@ -154,7 +154,7 @@ def handleSem (fields : List String) (r : String) (after : Option String) : Verd
     let m := ev.model
     let modelOk := match m with | some m => sameFun m r | none => false
     let o1 := match ev.spec with
-      | some s => checkFun vars r s (String.intercalate " " (fields.take 2))
+      | some s => checkFun vars r s (String.intercalate " " (fields.take 2)) m
       | none => none
     let o2 := match after with
       | none => none
@@ -201,8 +201,8 @@ def handleC02 (fields : List String) : Verdict :=
       let eq := boolField eq; let hasheq := boolField hasheq
       let same := sameFun c r
       let vars := varsOf [r]
-      let valid := (findAsg vars (fun σ => eval r σ)).isNone
-      let unsat := (findAsg vars (fun σ => !(eval r σ))).isNone
+      let valid := (findSat vars (BDD.not r)).isNone
+      let unsat := (findSat vars r).isNone
       let o :=
         orElse (robddMsg "the diagram reached by this route" r) <|
         orElse (if eq != same then some s!"`==` answers {eq} but the two diagrams {if same then "denote the same function" else "denote different functions"}" else none) <|
